@@ -314,9 +314,11 @@ Proof.
     + rewrite Hr. cbn. apply (base_agrees_with_response_same_tokens raw r0 b Hu Hb).
 Qed.
 
-(* ---------- 6. the pre-decoder reads the received bytes DIRECTLY (Schema.view_direct): no etree serialisation, hence no
-   second end-of-line normalisation.  On a tree without U+000D in its values the two views are the same; with one (it can
-   only have come through a character reference) they are not: finding F13. ---------- *)
+(* ---------- 6. the pre-decoder reads the received bytes DIRECTLY (Schema.view_direct): no etree serialisation in between.
+   xmlUnmarshalElement serialises with CanonicalText / CanonicalAttrVal (repair of F13), so what validation decodes are
+   the values of the tree as well ([view]): the two readings are the same function.  Before that repair validation read
+   [view_original] -- U+000D, which can only have come through a character reference, turned into U+000A -- and the two
+   agreed on trees without U+000D only. ---------- *)
 From V Require Import P_Ns.
 
 Fixpoint cr_free_str (s : string) : bool :=
@@ -335,40 +337,82 @@ Proof.
   apply andb_true_iff in H as [Hc Hr]. apply negb_true_iff in Hc. rewrite Hc, (IH Hr). reflexivity.
 Qed.
 
-Lemma view_direct_cr_free : forall n ns, cr_free n = true -> view_direct ns n = view ns n.
+(* the repair changes the decoded values of trees with U+000D only *)
+Lemma view_original_cr_free : forall n ns, cr_free n = true -> view_original ns n = view ns n.
 Proof.
   induction n as [sp tg attrs kids IHk | | | | ] using node_ind'; intros ns H; try reflexivity.
-  - cbn [cr_free] in H. apply andb_true_iff in H as [Ha Hk]. cbn [view view_direct]. cbv zeta.
+  - cbn [cr_free] in H. apply andb_true_iff in H as [Ha Hk]. cbn [view view_original]. cbv zeta.
     f_equal. f_equal.
     + apply map_ext_in. intros a Hin. rewrite forallb_forall in Ha. rewrite (cr_normalise_id _ (Ha a Hin)). reflexivity.
     + induction kids as [|x r IHr]; [reflexivity|]. cbn [flat_map forallb] in *.
       apply andb_true_iff in Hk as [Hx Hr]. inversion IHk as [|? ? Px Pr]; subst.
       rewrite (Px _ Hx), (IHr Pr Hr). reflexivity.
-  - cbn [cr_free] in H. cbn [view view_direct]. rewrite (cr_normalise_id _ H). reflexivity.
+  - cbn [cr_free] in H. cbn [view view_original]. rewrite (cr_normalise_id _ H). reflexivity.
 Qed.
 
-Lemma unmarshal_element_direct_cr_free sch name root :
-  cr_free root = true -> unmarshal_element_direct sch name root = unmarshal_element sch name root.
-Proof. intros H. unfold unmarshal_element_direct, unmarshal_element. rewrite (view_direct_cr_free root [] H). reflexivity. Qed.
+Lemma unmarshal_element_original_cr_free sch name root :
+  cr_free root = true -> unmarshal_element_original sch name root = unmarshal_element sch name root.
+Proof. intros H. unfold unmarshal_element_original, unmarshal_element. rewrite (view_original_cr_free root [] H). reflexivity. Qed.
 
-Lemma unmarshal_base_response_direct_cr_free root :
-  cr_free root = true -> unmarshal_base_response_direct root = unmarshal_base_response root.
-Proof. intros H. unfold unmarshal_base_response_direct, unmarshal_base_response. rewrite (unmarshal_element_direct_cr_free _ _ _ H). reflexivity. Qed.
+Lemma unmarshal_response_original_cr_free root :
+  cr_free root = true -> unmarshal_response_original root = unmarshal_response root.
+Proof. intros H. unfold unmarshal_response_original, unmarshal_response. rewrite (unmarshal_element_original_cr_free _ _ _ H). reflexivity. Qed.
 
-Lemma unmarshal_logout_response_direct_cr_free root :
-  cr_free root = true -> unmarshal_logout_response_direct root = unmarshal_logout_response root.
-Proof. intros H. unfold unmarshal_logout_response_direct, unmarshal_logout_response. rewrite (unmarshal_element_direct_cr_free _ _ _ H). reflexivity. Qed.
+Lemma unmarshal_base_response_direct_is root : unmarshal_base_response_direct root = unmarshal_base_response root.
+Proof. unfold unmarshal_base_response_direct, unmarshal_base_response. rewrite unmarshal_element_direct_is_unmarshal_element. reflexivity. Qed.
+
+Lemma unmarshal_logout_response_direct_is root : unmarshal_logout_response_direct root = unmarshal_logout_response root.
+Proof. unfold unmarshal_logout_response_direct, unmarshal_logout_response. rewrite unmarshal_element_direct_is_unmarshal_element. reflexivity. Qed.
 
 (* agreement of the pre-decoder (direct reading of the duplicate-preserving root) with validation (skip / unsigned paths) *)
 Lemma predecode_direct_agrees_when_root_unsigned dsig decrypt cfg now raw r b :
   well_formed_attrs raw = true ->
-  cr_free raw = true ->
   (cfg_skip_sig cfg = true \/ dsig (dedupe raw) = DMissing) ->
   validate_response_tree dsig decrypt cfg now (dedupe raw) = Ok r ->
   unmarshal_base_response_direct raw = Ok b ->
   br_id b = r_id r /\ br_in_response_to b = r_in_response_to r /\ br_destination b = r_destination r /\
   br_version b = r_version r /\ br_issuer b = r_issuer r.
 Proof.
-  intros Hwf Hcr Hpath H Hb. rewrite (unmarshal_base_response_direct_cr_free raw Hcr) in Hb.
+  intros Hwf Hpath H Hb. rewrite (unmarshal_base_response_direct_is raw) in Hb.
   exact (predecode_agrees_when_root_unsigned dsig decrypt cfg now raw r b Hwf Hpath H Hb).
+Qed.
+
+(* ---------- 7. tie to the source: the write settings gen/ reads off xmlUnmarshalElement's body on this run
+   (Generated.xmlUnmarshalElement_write_settings; a setting that is not assigned has etree's default, false) select, among
+   the views of Schema.v, the one the model gives xmlUnmarshalElement.  On a tree without the two assignments the list is
+   empty, the selected view is [view_original], and this does not compile. ---------- *)
+Definition source_write_setting (name : string) : bool :=
+  match assoc_get name xmlUnmarshalElement_write_settings with Some b => b | None => false end.
+Definition unmarshal_element_source (sch : schema) (name : string) (root : node) : res gval :=
+  unmarshal_element_ws (source_write_setting "CanonicalText") (source_write_setting "CanonicalAttrVal") sch name root.
+
+Lemma source_xmlUnmarshalElement_is_the_model sch name root :
+  unmarshal_element_source sch name root = unmarshal_element sch name root.
+Proof.
+  unfold unmarshal_element_source.
+  change (source_write_setting "CanonicalText") with true. change (source_write_setting "CanonicalAttrVal") with true.
+  apply unmarshal_element_ws_canonical.
+Qed.
+
+(* ---------- 8. the root's attribute fields are the element's attribute values, whatever they contain ---------- *)
+Lemma root_attr_value_is_element_attr name root : root_attr_value "" name root = element_attr name root.
+Proof.
+  unfold root_attr_value, element_attr. destruct root as [sp tg attrs kids| | | | ]; try reflexivity.
+  cbn [view]. cbv zeta.
+  pose proof (last_matching_view_attrs (fun a => translate_name (push_decls [] attrs) (at_space a) (at_key a) false) name attrs) as E.
+  destruct (last_matching "" name _) as [b|]; destruct (last_attr_named name attrs) as [b'|]; cbn [option_map] in E; try discriminate.
+  - inversion E. reflexivity.
+  - reflexivity.
+Qed.
+
+Lemma response_root_attributes_exact root r :
+  unmarshal_response root = Ok r ->
+  r_id r = element_attr "ID" root /\ r_in_response_to r = element_attr "InResponseTo" root /\
+  r_destination r = element_attr "Destination" root /\ r_version r = element_attr "Version" root.
+Proof.
+  unfold unmarshal_response, bind.
+  destruct (unmarshal_element xml_schema "Response" root) as [v|e] eqn:E; [|discriminate].
+  intros H. inversion H; subst. cbn [r_id r_in_response_to r_destination r_version to_response].
+  rewrite <- !root_attr_value_is_element_attr.
+  repeat split; eapply (unmarshal_element_attr "Response" resp_fs); try exact E; vm_compute; reflexivity.
 Qed.
